@@ -1,25 +1,30 @@
 (** C18 Behaviour is independent of the spelling of delimiters and tag names. *)
 From Coq Require Import List NArith ZArith Arith Bool.
 Import ListNotations.
-From Chiri Require Import Base.Bytes Base.Res Model.Tokenizer Model.TagParser Model.Markers Model.Clean
-     Spec.Scan Spec.Rename Proofs.TokenizerProofs Proofs.RenameProofs Proofs.C06Proofs.
+From Chiri Require Import Base.Bytes Base.Res Model.Tokenizer Model.TagParser Model.Finders Model.Markers
+     Model.Format Model.Clean Spec.Scan Spec.Rename Spec.Simulation
+     Proofs.TokenizerProofs Proofs.RenameProofs Proofs.C06Proofs Proofs.SimFlat Proofs.SimStrings.
 
 (** The full statement (kept visible; NOT proved in full): rewriting source and configuration
     consistently to another spelling yields the correspondingly rewritten output. *)
 Definition C18_full_statement : Prop :=
   forall cfg ds de ds' de' doc doc',
-    ds <> [] -> de <> [] -> ds' <> [] -> de' <> [] -> normal doc ->
-    doc_disjoint ds de doc -> doc_disjoint ds' de' doc -> bodies_ok doc ->
+    good_delims ds de -> good_delims ds' de' -> good_doc ds de doc -> good_doc ds' de' doc ->
+    bodies_ok doc ->
+    dedent_ok de doc -> dedent_ok de' doc ->          (* excludes known finding KF2, see below *)
     clean cfg ds de (render ds de doc) = Ok (render ds de doc') ->
     clean cfg ds' de' (render ds' de' doc) = Ok (render ds' de' doc').
 (** What is proved (the `_partial` theorems below): for documents in which the delimiter bytes occur
     nowhere else, the token sequence (kinds, order, spans = the items' spans) and every parsed tag
     are the same function of the abstract document whatever the spelling, and the decisions depend
     on tag names only through equality with the configured names.  So the tree, readiness and marker
-    structure are spelling-independent.  What is missing for the full statement is the formatting
-    layer (a simulation argument over the position map: the whitespace scanners see delimiters only
-    as non-blank bytes); that layer is validated differentially (metamorphic pairs over 18 delimiter
-    spellings x 4 tag-name pairs) in the check of this property. *)
+    structure are spelling-independent.  For the formatting layer the string-level half is proved
+    (the C18_sim_* theorems below: every finder, the four seam formatters with their hull, and the
+    block formatter return corresponding positions when run on the two renderings of one document at
+    corresponding positions - Spec/Simulation.v defines the correspondence [cpos]).  What is missing
+    for the full statement is the pipeline-level composition (markers, the removed text as a
+    rendering of a residual document, the merge of ranges); it is validated differentially
+    (metamorphic pairs over 18 delimiter spellings x 4 tag-name pairs) in the check of this property. *)
 
 Theorem C18_tokens_are_the_items_partial :
   forall ds de doc ts,
@@ -56,6 +61,78 @@ Theorem C18_names_only_by_equality_partial :
       time_is_removal (tl_offset cfg) (now cfg) el = true)).
 Proof. exact status_ready_iff. Qed.
 Print Assumptions C18_names_only_by_equality_partial.
+
+(** String-level simulation (Proofs/SimFlat.v, SimStrings.v). [xvalid] extends [valid_apos] by the
+    position of the first byte of an end delimiter, which range ends can take. *)
+Theorem C18_sim_find_next_lb_partial :
+  forall dsA deA dsB deB doc,
+    good_delims dsA deA -> good_delims dsB deB -> good_doc dsA deA doc -> good_doc dsB deB doc ->
+    forall a pause, xvalid doc a ->
+    exists r : option apos,
+      (match r with Some b => valid_apos doc b | None => True end) /\
+      find_next_lb (render dsA deA doc) (cpos dsA deA doc a) pause = option_map (cpos dsA deA doc) r /\
+      find_next_lb (render dsB deB doc) (cpos dsB deB doc a) pause = option_map (cpos dsB deB doc) r.
+Proof. exact sim_find_next_lb. Qed.
+Print Assumptions C18_sim_find_next_lb_partial.
+
+Theorem C18_sim_find_prev_lb_partial :
+  forall dsA deA dsB deB doc,
+    good_delims dsA deA -> good_delims dsB deB -> good_doc dsA deA doc -> good_doc dsB deB doc ->
+    forall a pause, xvalid doc a ->
+    exists r : option apos,
+      (match r with Some b => valid_apos doc b | None => True end) /\
+      find_prev_lb (render dsA deA doc) (cpos dsA deA doc a) pause = option_map (cpos dsA deA doc) r /\
+      find_prev_lb (render dsB deB doc) (cpos dsB deB doc a) pause = option_map (cpos dsB deB doc) r.
+Proof. exact sim_find_prev_lb. Qed.
+Print Assumptions C18_sim_find_prev_lb_partial.
+
+Theorem C18_sim_seam_formatters_partial :
+  forall dsA deA dsB deB doc,
+    good_delims dsA deA -> good_delims dsB deB -> good_doc dsA deA doc -> good_doc dsB deB doc ->
+    forall a, xvalid doc a ->
+    exists r : option (apos * apos),
+      (match r with Some (x, y) => xvalid doc x /\ xvalid doc y | None => True end) /\
+      format_block (render dsA deA doc) (cpos dsA deA doc a) =
+        match r with Some (x, y) => Ok (cpos dsA deA doc x, cpos dsA deA doc y) | None => Panic end /\
+      format_block (render dsB deB doc) (cpos dsB deB doc a) =
+        match r with Some (x, y) => Ok (cpos dsB deB doc x, cpos dsB deB doc y) | None => Panic end.
+Proof. exact sim_format_block. Qed.
+Print Assumptions C18_sim_seam_formatters_partial.
+
+(** The block formatter: under [dedent_ok] (the end delimiter does not begin with a blank, or no
+    line of blanks runs into an end delimiter) - i.e. outside known finding KF2. *)
+Theorem C18_sim_block_formatter_partial :
+  forall dsA deA dsB deB doc,
+    good_delims dsA deA -> good_delims dsB deB -> good_doc dsA deA doc -> good_doc dsB deB doc ->
+    dedent_ok deA doc -> dedent_ok deB doc ->
+    forall a b, xvalid doc a -> xvalid doc b ->
+    exists rs : list (apos * apos),
+      Forall (fun r => xvalid doc (fst r) /\ xvalid doc (snd r)) rs /\
+      block_indent_remover (render dsA deA doc) (cpos dsA deA doc a) (cpos dsA deA doc b) =
+        Ok (map (fun r => (cpos dsA deA doc (fst r), cpos dsA deA doc (snd r))) rs) /\
+      block_indent_remover (render dsB deB doc) (cpos dsB deB doc a) (cpos dsB deB doc b) =
+        Ok (map (fun r => (cpos dsB deB doc (fst r), cpos dsB deB doc (snd r))) rs).
+Proof. exact sim_block_indent. Qed.
+Print Assumptions C18_sim_block_formatter_partial.
+
+(** Known finding KF2 (known_findings.json), as a theorem about the faithful model: with the end
+    delimiter " -->" (it begins with a blank) against "*/", a tag body that ends with a line of
+    blanks makes the block formatter return ranges of different lengths under the two spellings: the
+    leading blank of the end delimiter is counted as indentation. *)
+Theorem C18_known_finding_KF2 :
+  let doc := [Txt [120]%N; Tag [97; 10; 32; 32]%N;
+              Txt [10; 32; 32; 32; 32; 121; 10; 32; 32; 32; 32; 122; 10]%N; Tag [101]%N] in
+  let dsA := [60; 33; 45; 45]%N in let deA := [32; 45; 45; 62]%N in
+  let dsB := [47; 42]%N in let deB := [42; 47]%N in
+  good_delims dsA deA /\ good_delims dsB deB /\
+  find_next_char (render dsA deA doc) (cpos dsA deA doc (InBody 1 2)) = Some (cpos dsA deA doc (InBody 1 4) + 1) /\
+  find_next_char (render dsB deB doc) (cpos dsB deB doc (InBody 1 2)) = Some (cpos dsB deB doc (InBody 1 4)) /\
+  block_indent_remover (render dsA deA doc) (cpos dsA deA doc (TagStart 1)) (cpos dsA deA doc DocEnd) =
+    Ok [(7, 10); (14, 17); (20, 23)] /\
+  block_indent_remover (render dsB deB doc) (cpos dsB deB doc (TagStart 1)) (cpos dsB deB doc DocEnd) =
+    Ok [(5, 7); (10, 12); (16, 18)].
+Proof. exact block_indent_diverges. Qed.
+Print Assumptions C18_known_finding_KF2.
 
 (** The premise [bodies_ok] (the first character of each tag body lies inside the body; implied by
     well-formed UTF-8) is needed: *)
